@@ -56,6 +56,8 @@ type Req struct {
 	Reference       string `json:"reference,omitempty"`
 	TxID            uint64 `json:"txid,omitempty"`
 	AtEffectiveDate bool   `json:"atEffectiveDate,omitempty"`
+	// Legs: further `send` statements of the same script (kind send)
+	Legs []Leg `json:"legs,omitempty"`
 	// WithMetadata: the revert request carries user metadata {"note": "x"}
 	WithMetadata bool `json:"withMetadata,omitempty"`
 	// bulk: the elements run sequentially inside ONE SQL transaction (atomic bulk: Controller.BeginTX)
@@ -64,6 +66,15 @@ type Req struct {
 	From string `json:"from,omitempty"`
 	// blocks: max block size for create_blocks
 	BlockSize int `json:"blockSize,omitempty"`
+}
+
+// Leg is one more send statement of a script.
+type Leg struct {
+	Src    string `json:"src"`
+	Dst    string `json:"dst"`
+	Asset  string `json:"asset"`
+	Amount string `json:"amount"`
+	Allow  string `json:"allow,omitempty"`
 }
 
 // LedgerSpec describes a ledger of the case.
@@ -329,15 +340,22 @@ func (e *env) createLedgers(ctx context.Context, specs []LedgerSpec) (map[string
 
 // Script renders the Numscript of a `send` request.
 func (r Req) Script() string {
-	src := "@" + r.Src
-	switch r.Allow {
-	case "":
-	case "unbounded":
-		src += " allowing unbounded overdraft"
-	default:
-		src += fmt.Sprintf(" allowing overdraft up to [%s %s]", r.Asset, r.Allow)
+	one := func(l Leg) string {
+		src := "@" + l.Src
+		switch l.Allow {
+		case "":
+		case "unbounded":
+			src += " allowing unbounded overdraft"
+		default:
+			src += fmt.Sprintf(" allowing overdraft up to [%s %s]", l.Asset, l.Allow)
+		}
+		return fmt.Sprintf("send [%s %s] (\n  source = %s\n  destination = @%s\n)", l.Asset, l.Amount, src, l.Dst)
 	}
-	return fmt.Sprintf("send [%s %s] (\n  source = %s\n  destination = @%s\n)", r.Asset, r.Amount, src, r.Dst)
+	out := one(Leg{Src: r.Src, Dst: r.Dst, Asset: r.Asset, Amount: r.Amount, Allow: r.Allow})
+	for _, l := range r.Legs {
+		out += "\n" + one(l)
+	}
+	return out
 }
 
 func bigOf(s string) *big.Int {
